@@ -408,7 +408,7 @@ func c17Program(src string, unsupported bool, stream string, model *Model, r *Re
 	if wf {
 		res, _ = runVMInProcess(c.bc, 3*time.Second)
 	} else {
-		res = runVMSubprocess(src, 10*time.Second)
+		res = runVMSubprocess(src, 6*time.Second)
 	}
 	switch {
 	case res.Timeout:
@@ -419,6 +419,8 @@ func c17Program(src string, unsupported bool, stream string, model *Model, r *Re
 		}
 		if wf {
 			r.Violate(Violation{Kind: "property", Key: "vm-nontermination", Detail: "the VM did not finish a terminating program within 3 s", Input: in})
+		} else if big {
+			r.Violate(Violation{Kind: "property", Key: "operand-truncation-vm-hang", Detail: "the VM does not terminate on bytecode whose jump operands were truncated to 16 bits (killed after 6 s)", Input: in})
 		}
 	case res.Panic != "":
 		key := "vm-host-panic"
@@ -493,7 +495,7 @@ func c17Large(kind string, rng *rand.Rand) string {
 		b.WriteString("y := a[0]\ny = y\n")
 	case "many-locals": // more locals than the VM stack has slots
 		b.WriteString("x := 0\nif x == 0\n")
-		n := 2040 + rng.Intn(40)
+		n := 2050 + rng.Intn(40)
 		for i := 0; i < n; i++ {
 			fmt.Fprintf(&b, "    l%d := %d\n", i, i%10)
 		}
